@@ -39,6 +39,14 @@
 /*============================================================================*/
 
 void eb_pck(eb_t r, const eb_t p) {
+	/* The point of order two (x = 0) is compressed with bit 0 (SEC 1, 2.3.3). */
+	if (fb_is_zero(p->x)) {
+		fb_zero(r->x);
+		fb_zero(r->y);
+		fb_set_dig(r->z, 1);
+		r->coord = BASIC;
+		return;
+	}
 	/* z3 = y1/x1. */
 	fb_inv(r->z, p->x);
 	fb_mul(r->z, r->z, p->y);
@@ -58,6 +66,15 @@ int eb_upk(eb_t r, const eb_t p) {
 
 	fb_null(t0);
 	fb_null(t1);
+
+	/* The only point with x = 0 is (0, sqrt(b)) (SEC 1, 2.3.4). */
+	if (fb_is_zero(p->x)) {
+		fb_srt(r->y, eb_curve_get_b());
+		fb_zero(r->x);
+		fb_set_dig(r->z, 1);
+		r->coord = BASIC;
+		return 1;
+	}
 
 	RLC_TRY {
 		fb_new(t0);
